@@ -181,6 +181,18 @@ ROUND5: dict[str, str] = {
 for _pid, _text in ROUND5.items():
     META[_pid]["level"] += " " + _text
 
+# Fifth round: a fourth unseen set of refactorings (DESIGN.md 9.16)
+ROUND6: dict[str, str] = {
+    "C01": "Fifth round: methods of an object the builder owns (`self.<attr>` only ever bound to instances of one class) are spliced into the analysed function; the clause on remaining mass symbols classifies the test that decided a skipped iteration (undecided unless it is read).",
+    "C02": "Fifth round: folds over a factor list that differs per path are folded per alternative; properties of frozen record classes are evaluated; methods of the owned ingredients object are followed.",
+    "C06": "Fifth round: a write to self.<field> in a method is a write to the receiver and is judged at the call sites on the formulate path; a fresh instance may come from a classmethod / staticmethod / function all of whose returns build one from fresh containers; reset() over attrs.fields(...) is read through the declared factories.",
+    "C09": "Fifth round: matrix.applyfunc(<entry-wise xreplace>) records the substitutions Matrix.xreplace would.",
+    "C16": "Fifth round: predicate helpers and module constants are followed by R-SHAPE; a value that came out of a call the rule cannot attribute makes R-VERIFY undecided.",
+    "C20": "Fifth round: module-level integer / text constants, properties and slices of NamedTuple records are read as what they are.",
+}
+for _pid, _text in ROUND6.items():
+    META[_pid]["level"] += " " + _text
+
 TECHNIQUE_SUFFIX = {
     "C02": "; abstract evaluation of the fold chain into structural terms (sa/symex.py)",
     "C04": "; abstract evaluation of the rotation chain into structural terms",
